@@ -28,7 +28,9 @@
      C04_reopen_invention_refuted           after a repair that lost a Series record the ref is given to
                                             a new series; at the next open it shows the old series' samples
      C04_old_chunk_file_refuted             an older head chunk file cut at a chunk boundary hides
-                                            samples that the WAL still has *)
+                                            samples that the WAL still has
+     C04_acknowledged_append_dropped_refuted  after a repair that leaves a series without head chunk an
+                                            out-of-order append is acknowledged and silently dropped *)
 From Coq Require Import List ZArith Bool.
 From Verif Require Import model.Damage proof.DamageProofs.
 Import ListNotations.
@@ -263,4 +265,34 @@ Proof.
   - split.
     + vm_compute. intros H. repeat (destruct H as [H|H]; [discriminate|]). destruct H.
     + eexists. eexists. split; [vm_compute; reflexivity|]. vm_compute. in_list.
+Qed.
+
+(* ------------------------------------------------------------------ an acknowledged write is dropped *)
+(* Full statement (FALSE): every sample acknowledged after a successful open is stored.
+   Counterexample: the last WAL record is cut; every sample that is left lies in an m-mapped
+   chunk, so the series is rebuilt without a head chunk; memSeries.appendable then takes ANY
+   sample for an in-order one ("freshly created series"), the out-of-order sample (10, 25) is
+   acknowledged, logged to the WAL, and ignored by memSeries.append because the newest m-mapped
+   chunk is newer; the next replay skips it for the same reason. *)
+Definition ex_wal_tail (dm : dmg) : seg :=
+  mkSeg 32768 [mkR [mkF 0 20 111] 0 (RSeries [(1, 10)]);
+               mkR [mkF 27 30 222] 0 (RSamples [(1, 10, 1); (1, 20, 2); (1, 30, 3)]);
+               mkR [mkF 64 10 333] 0 (RSamples [(1, 40, 4)])] dm no_or.
+Definition ex_disk_tail (dm : dmg) : disk :=
+  mkD [] min_int64 None [(0, ex_wal_tail dm)] []
+      [mkCF 1 1000 [mkC 8 50 4294967304 1 false 30 [(10, 1); (20, 2); (30, 3)]] DNone false] 4.
+
+Theorem C04_acknowledged_append_dropped_refuted :
+  exists d c1 c1b c2 k2, d = ex_disk_tail (DTrunc 70) /\
+    scenario d [(10, 25, 9)] = SOk c1 KWal false c1b (R2Ok c2 k2) /\
+    ~ In (10, 25, 9) c1b /\ ~ In (10, 25, 9) c2 /\
+    (* while the undamaged database stores it *)
+    (exists c1' c1b' c2' k2', scenario (ex_disk_tail DNone) [(10, 25, 9)] = SOk c1' KNone false c1b' (R2Ok c2' k2') /\
+       In (10, 25, 9) c1b' /\ In (10, 25, 9) c2').
+Proof.
+  exists (ex_disk_tail (DTrunc 70)). eexists. eexists. eexists. eexists.
+  split; [reflexivity|]. split; [vm_compute; reflexivity|]. split; [|split].
+  - vm_compute. intros H. repeat (destruct H as [H|H]; [discriminate|]). destruct H.
+  - vm_compute. intros H. repeat (destruct H as [H|H]; [discriminate|]). destruct H.
+  - eexists. eexists. eexists. eexists. split; [vm_compute; reflexivity|]. split; vm_compute; in_list.
 Qed.
